@@ -419,6 +419,62 @@ static std::string arg_class(const vec_basic &args)
     return s;
 }
 
+
+// arguments on (or numerically at) a branch cut: the value there is a convention, the property
+// is stated away from the cuts
+static bool on_cut(const std::string &f, const std::vector<cplx> &a)
+{
+    if (a.empty())
+        return false;
+    cplx z = a[0];
+    double x = z.real(), y = z.imag();
+    const double eps = 1e-12;
+    bool re_axis = std::fabs(y) < eps, im_axis = std::fabs(x) < eps;
+    if (f == "asin" or f == "acos") return re_axis and std::fabs(x) > 1 - eps;
+    if (f == "asec" or f == "acsc") return re_axis and std::fabs(x) < 1 + eps;
+    if (f == "atan" or f == "acot") return im_axis and std::fabs(y) > 1 - eps;
+    if (f == "asinh") return im_axis and std::fabs(y) > 1 - eps;
+    if (f == "acsch") return im_axis and std::fabs(y) < 1 + eps;
+    if (f == "acosh") return re_axis and x < 1 + eps;
+    if (f == "asech") return re_axis and (x < eps or x > 1 - eps);
+    if (f == "atanh") return re_axis and std::fabs(x) > 1 - eps;
+    if (f == "acoth") return re_axis and std::fabs(x) < 1 + eps;
+    if (f == "log" or f == "lambertw" or f == "loggamma") return re_axis and x < eps;
+    if (f == "atan2") return false;
+    return false;
+}
+
+static std::string fn_group(const std::string &f)
+{
+    if (f == "digamma" or f == "trigamma" or f == "polygamma") return "polygamma";
+    return f;
+}
+// coarse class of the first argument
+static std::string coarse_class(const vec_basic &args)
+{
+    bool sym = false;
+    for (const auto &a : args)
+        if (not free_symbols(*a).empty())
+            sym = true;
+    if (sym) return "symbolic";
+    for (const auto &a : args)
+        if (is_a<RealDouble>(*a) or is_a<ComplexDouble>(*a)) return "float";
+    for (const auto &a : args)
+        if (is_a<Complex>(*a)) return "exact-complex";
+    for (const auto &a : args)
+        if (not is_a_Number(*a)) return "closed-form";
+    return "exact-real";
+}
+// violation key: the class of failure
+static std::string oracle_key(const std::string &f, const vec_basic &args, const std::string &symptom)
+{
+    if (symptom == "class") return f + "-wrong-class";
+    if (symptom == "noncanonical") return f + "-noncanonical";
+    if (symptom == "infinite") return fn_group(f) + "-infinite-at-regular-point";
+    if (symptom == "pole") return fn_group(f) + "-finite-at-pole";
+    return fn_group(f) + "-value-" + coarse_class(args);
+}
+
 // compare f(args) =: res with the reference at up to three sample sets
 static std::string value_oracle(const std::string &f, const vec_basic &args, const B &res)
 {
@@ -447,6 +503,8 @@ static std::string value_oracle(const std::string &f, const vec_basic &args, con
             }
             if (!ok)
                 continue;
+            if (on_cut(f, av))
+                continue;
             cplx ref;
             bool pole = false;
             if (f == "max" or f == "min") {
@@ -469,13 +527,13 @@ static std::string value_oracle(const std::string &f, const vec_basic &args, con
                     continue;
                 cplx got;
                 if (num_eval(rs, got) and std::abs(got) < 1e6)
-                    return "value|" + f + " has a pole at " + cstr(av[0]) + " but the result evaluates to " + cstr(got);
+                    return "pole|" + f + " has a pole at " + cstr(av[0]) + " but the result evaluates to " + cstr(got);
                 continue;
             }
             if (!finite_c(ref))
                 continue;
             if (is_a<Infty>(*rs))
-                return "value|" + f + " result is infinite, reference value " + cstr(ref) + " (sample set "
+                return "infinite|" + f + " result is infinite, reference value " + cstr(ref) + " (sample set "
                        + std::to_string(set) + ")";
             cplx got;
             if (!num_eval(rs, got))
@@ -580,6 +638,18 @@ static std::string run_T(const std::vector<std::string> &tok, const std::string 
             cplx got;
             if (!num_eval(rs, got))
                 continue;
+            if (!close_enough(got, ref)) {
+                // a huge shift that legitimately survives in the result (pi with a Complex or floating
+                // coefficient is not a shift for get_pi_shift, so nothing is reduced) can only be
+                // evaluated in double precision: inconclusive
+                double ratio = mp_get_d(p) / mp_get_d(q);
+                if (std::fabs(ratio) > 1e5) {
+                    RCP<const Number> nn;
+                    B xx;
+                    if (not get_pi_shift(arg, outArg(nn), outArg(xx)))
+                        continue;
+                }
+            }
             if (!close_enough(got, ref))
                 return out + "\t#ORACLE:" + cls + "|result evaluates to " + cstr(got) + ", " + ti->name
                        + "(r + (p mod 2q)/q pi) = " + cstr(ref) + " (sample set " + std::to_string(set) + ")";
@@ -663,7 +733,7 @@ static std::string run_N(const std::vector<std::string> &rec, const std::string 
             and not down_cast<const Sign &>(*res).is_canonical(down_cast<const Sign &>(*res).get_arg()))
             o = "noncanonical|sign returned the non-canonical object " + res->__str__();
         if (!o.empty())
-            out += "\t#ORACLE:" + op + "-" + arg_class({a}) + "|" + o;
+            out += "\t#ORACLE:" + oracle_key(op, {a}, o.substr(0, o.find('|'))) + "|" + o;
     }
     return out;
 }
@@ -685,7 +755,7 @@ static std::string run_generic(const std::string &fam, const std::string &f, con
         if (o.empty() and f == "uppergamma" and is_a<LowerGamma>(*res))
             o = "class|uppergamma returned the LowerGamma object " + res->__str__();
         if (!o.empty())
-            out += "\t#ORACLE:" + f + "-" + arg_class(args) + "|" + o;
+            out += "\t#ORACLE:" + oracle_key(f, args, o.substr(0, o.find('|'))) + "|" + o;
     }
     return out;
 }
@@ -764,13 +834,13 @@ static std::string run_case(const std::string &line)
                     expect = (inv % 2) ? -1 : 1;
                 }
                 if (expect != 99 and not eq(*res, *integer(expect)))
-                    out += "\t#ORACLE:levi_civita-int|value|expected " + std::to_string(expect) + ", got " + res->__str__();
+                    out += "\t#ORACLE:levi_civita-value-exact-real|value|expected " + std::to_string(expect) + ", got " + res->__str__();
             }
         }
         if (!res.is_null() and fam == "KD") {
             std::string o = value_oracle(f, args, res);
             if (!o.empty())
-                out += "\t#ORACLE:kronecker_delta-" + arg_class(args) + "|" + o;
+                out += "\t#ORACLE:" + oracle_key(f, args, o.substr(0, o.find('|'))) + "|" + o;
         }
         return out;
     }
@@ -791,7 +861,7 @@ static std::string run_case(const std::string &line)
         if (!res.is_null()) {
             std::string o = value_oracle("gamma", {a}, res);
             if (!o.empty())
-                out += "\t#ORACLE:gamma-" + arg_class({a}) + "|" + o;
+                out += "\t#ORACLE:" + oracle_key("gamma", {a}, o.substr(0, o.find('|'))) + "|" + o;
         }
         return out;
     }
